@@ -18,6 +18,8 @@ import (
 	"testing"
 	"time"
 
+	"tunnox-core/internal/cloud/models"
+	"tunnox-core/internal/cloud/stats"
 	"tunnox-core/internal/packet"
 	"tunnox-core/internal/stream"
 	vk "tunnox-core/internal/verifkit"
@@ -844,6 +846,8 @@ func c02Tagged(tags []string) (sig string, parkedIO int, other []string) {
 		}
 		kind := ""
 		switch {
+		case strings.Contains(st, "tunnel.(*c02StatsCC).gate("):
+			kind = "statsgate" // parked inside the (stalled) statistics backend double
 		case strings.Contains(st, "rate.(*Limiter)"), strings.Contains(st, "time.Sleep"):
 			kind = "timer"
 		case strings.Contains(st, "net.(*pipe).read"), strings.Contains(st, "net.(*pipe).write"),
@@ -857,7 +861,7 @@ func c02Tagged(tags []string) (sig string, parkedIO int, other []string) {
 		default:
 			kind = "other:" + g.State
 		}
-		if kind == "io" || kind == "mutex" {
+		if kind == "io" || kind == "mutex" || kind == "statsgate" {
 			parkedIO++
 		} else if kind != "wgwait" {
 			other = append(other, kind)
@@ -945,6 +949,9 @@ func c02Pick(s, t *c02End, name string) *c02End {
 func c02RunCase(run *vk.Run, nw *c02Net, cfg c02Cfg) (out c02Outcome) {
 	if cfg.Script == "reattach" {
 		return c02RunReattach(run, nw, cfg)
+	}
+	if cfg.Script == "bulk-close" {
+		return c02RunBulkClose(run, nw, cfg)
 	}
 	lc := c02LimitClass(cfg.Limit)
 	ctx, cancel := context.WithCancel(context.Background())
@@ -1738,6 +1745,510 @@ func c02RunReattach(run *vk.Run, nw *c02Net, cfg c02Cfg) (out c02Outcome) {
 	return out
 }
 
+
+// ---------------------------------------------------------------------------
+// bulk transfer, then the sender closes while the receiver is still draining
+// ---------------------------------------------------------------------------
+
+// c02RunBulkClose: the sending end writes its whole stream (larger than the socket
+// buffers) and then closes; it has nothing to receive, so it does not close early and
+// the receiving end - attached over a real *net.TCPConn (handed to the bridge as such,
+// with the stream's reader/writer on the counting wrapper) - is entitled to every byte.
+// The receiver is a slow consumer in a logical sense: it reads only while more than
+// `keep` bytes the bridge has already written towards it are still unread (or when the
+// pipeline has stopped moving, or once the bridge has finished), so that the server-side
+// socket still holds queued data when the bridge tears the tunnel down. Verdict: once the
+// receiver's stream has ended, its byte count is final; anything short of the sender's
+// stream is a loss.
+func c02RunBulkClose(run *vk.Run, nw *c02Net, cfg c02Cfg) (out c02Outcome) {
+	lc := c02LimitClass(cfg.Limit)
+	ctx, cancel := context.WithCancel(context.Background())
+	defer cancel()
+	senderIsSrc := cfg.End == "src"
+	srcT, tgtT := cfg.SrcT, cfg.TgtT
+	if senderIsSrc {
+		tgtT = "tcp"
+	} else {
+		srcT = "tcp"
+	}
+	cliS, srvSraw, err := nw.pair(srcT)
+	if err != nil {
+		run.Count("harness_transport_error", 1)
+		out.watchdog = true
+		return
+	}
+	cliT, srvTraw, err := nw.pair(tgtT)
+	if err != nil {
+		cliS.Close()
+		srvSraw.Close()
+		run.Count("harness_transport_error", 1)
+		out.watchdog = true
+		return
+	}
+	srvS, srvT := c02Wrap(srvSraw), c02Wrap(srvTraw)
+	total := cfg.S2T
+	data := vk.Pattern(cfg.Seed, 0, total)
+	cr := rand.New(rand.NewSource(cfg.ChunkSeed))
+	sendCli, recvCli, recvSrv := cliS, cliT, srvT
+	if !senderIsSrc {
+		sendCli, recvCli, recvSrv = cliT, cliS, srvS
+	}
+	if tc, ok := recvCli.(*net.TCPConn); ok {
+		tc.SetReadBuffer(32 * 1024) // keep the unread backlog on the server side of the connection
+	}
+	// the bridge gets raw TCP connections as net.Conn (as in production); the stream's
+	// reader/writer are the counting wrappers
+	var srcNet, tgtNet net.Conn = srvS, srvT
+	var srcStream, tgtStream stream.PackageStreamer
+	if _, ok := srvSraw.(*net.TCPConn); ok {
+		srcNet = srvSraw
+		srcStream = stream.NewStreamProcessor(srvS, srvS, ctx)
+	} else if cfg.Stream {
+		srcStream = stream.NewStreamProcessor(srvS, srvS, ctx)
+	}
+	if _, ok := srvTraw.(*net.TCPConn); ok {
+		tgtNet = srvTraw
+		tgtStream = stream.NewStreamProcessor(srvT, srvT, ctx)
+	} else if cfg.Stream {
+		tgtStream = stream.NewStreamProcessor(srvT, srvT, ctx)
+	}
+	bridge := NewBridge(ctx, &BridgeConfig{TunnelID: fmt.Sprintf("c02-%d", cfg.ID), SourceConn: srcNet, SourceStream: srcStream, BandwidthLimit: cfg.Limit})
+	bridge.SetTargetConnection(&c02TunnelConn{id: "tgt", conn: tgtNet, st: tgtStream})
+	startDone := make(chan struct{})
+	go func() { bridge.Start(); close(startDone) }()
+	began := time.Now()
+
+	const keep = 1 << 20
+	var got, backlogAtClose atomic.Int64
+	var sent atomic.Int64
+	var wErr error
+	wDone := make(chan struct{})
+	go func() {
+		defer close(wDone)
+		off := 0
+		for _, n := range c02Chunks(cr, cfg.ChunkS, total) {
+			k, err := sendCli.Write(data[off : off+n])
+			off += k
+			sent.Store(int64(off))
+			if err != nil {
+				wErr = err
+				return
+			}
+		}
+		// everything written, nothing to receive: the sender is done and closes
+		backlogAtClose.Store(int64(total) - got.Load())
+		sendCli.Close()
+	}()
+
+	var bad atomic.Pointer[c02Mismatch]
+	var rErr error
+	forcedReads := int64(0)
+	rDone := make(chan struct{})
+	go func() {
+		defer close(rDone)
+		buf := make([]byte, 64*1024)
+		lastWr, lastMove := int64(-1), time.Now()
+		for {
+			finished := false
+			select {
+			case <-startDone:
+				finished = true
+			default:
+			}
+			wr := recvSrv.wr.Load()
+			if wr != lastWr {
+				lastWr, lastMove = wr, time.Now()
+			}
+			stalled := time.Since(lastMove) > 3*time.Millisecond // pipeline full: the bridge cannot write any further
+			if !finished && wr-got.Load() <= keep && !stalled {
+				time.Sleep(200 * time.Microsecond)
+				continue
+			}
+			if stalled && !finished {
+				forcedReads++
+				lastMove = time.Now()
+			}
+			n, err := recvCli.Read(buf)
+			if n > 0 {
+				g := got.Load()
+				if bad.Load() == nil {
+					end := g + int64(n)
+					if end > int64(total) || !bytes.Equal(buf[:n], data[g:end]) {
+						bad.Store(c02Diagnose(data, g, buf[:n]))
+					}
+				}
+				got.Store(g + int64(n))
+			}
+			if err != nil {
+				rErr = err
+				return
+			}
+		}
+	}()
+
+	detail := func(extra map[string]any) map[string]any {
+		m := map[string]any{"case": cfg, "limit_class": lc, "sender": cfg.End, "total": total, "sender_wrote": sent.Load(), "sender_write_error": fmt.Sprint(wErr),
+			"receiver_got": got.Load(), "receiver_stream_ended_with": fmt.Sprint(rErr), "bridge_wrote_towards_receiver": recvSrv.wr.Load(),
+			"receiver_reads_forced_by_full_pipeline": forcedReads, "undelivered_when_sender_closed": backlogAtClose.Load(), "elapsed_ms": time.Since(began).Milliseconds()}
+		for k, v := range extra {
+			m[k] = v
+		}
+		return m
+	}
+	wd := time.NewTimer(c02WatchTransfer)
+	select {
+	case <-rDone:
+	case <-wd.C:
+		run.Count("watchdog", 1)
+		run.Observe("watchdog_last", detail(map[string]any{"phase": "bulk-close"}))
+		out.watchdog = true
+	}
+	wd.Stop()
+	if !out.watchdog {
+		<-wDone
+		backlog := recvSrv.wr.Load() - got.Load()
+		_ = backlog
+		switch {
+		case bad.Load() != nil:
+			run.Violation("C02:corrupt|kind="+bad.Load().Kind+"|limit="+lc, detail(map[string]any{"mismatch": bad.Load()}))
+		case wErr != nil:
+			// the sender could not even hand over its stream: the tunnel was cut under it
+			run.Violation("C02:incomplete|limit="+lc+"|cause=bridge-closed-tunnel", detail(map[string]any{
+				"what": "the bridge ended the tunnel while the sender was still writing and nobody had closed"}))
+		case got.Load() < int64(total):
+			run.Violation("C02:incomplete|limit="+lc+"|cause=tail-lost-when-sender-closed", detail(map[string]any{"lost_tail": int64(total) - got.Load(),
+				"what": "the sender wrote its whole stream and then closed (nothing to receive, so not early); the receiver's stream ended without the last bytes: data still queued towards the receiver was discarded at teardown"}))
+		default:
+			out.complete = true
+			run.Count("bulk_close_complete", 1)
+		}
+		select {
+		case <-startDone:
+		case <-time.After(c02WatchClose):
+			run.Count("watchdog", 1)
+			out.watchdog = true
+		}
+	}
+	cliS.Close()
+	cliT.Close()
+	bridge.Close()
+	srvS.Close()
+	srvT.Close()
+	for _, st := range []stream.PackageStreamer{srcStream, tgtStream} {
+		if st != nil {
+			st.Close()
+		}
+	}
+	cw := time.NewTimer(c02WatchClose)
+	for _, ch := range []chan struct{}{rDone, wDone, startDone} {
+		select {
+		case <-ch:
+		case <-cw.C:
+			run.Count("harness_cleanup_stuck", 1)
+			out.watchdog = true
+		}
+	}
+	cw.Stop()
+	run.Eval(1)
+	if out.complete {
+		run.Count("complete_transfers", 1)
+		if forcedReads > 0 {
+			run.Count("bulk_close_pipeline_was_full", 1)
+		}
+		if backlogAtClose.Load() >= 512*1024 {
+			run.Count("bulk_close_half_mib_undelivered_at_close", 1)
+		}
+	}
+	run.Count("cases_limit_"+lc, 1)
+	run.Count("cases_script_bulk-close", 1)
+	run.Count("bytes_delivered", got.Load())
+	run.Distinct(fmt.Sprintf("%s>%s|stream=%v|limit=%s|script=bulk-close|sender=%s|%s", srcT, tgtT, cfg.Stream, lc, cfg.End, c02SizeBucket(total)))
+	return out
+}
+
+// ---------------------------------------------------------------------------
+// statistics backend double
+// ---------------------------------------------------------------------------
+
+// c02StatsCC is the CloudControl the bridge reports traffic to. Once armed, every call
+// parks in gate() until the harness releases it (a stalled statistics backend), or fails.
+type c02StatsCC struct {
+	mu       sync.Mutex
+	armed    atomic.Bool
+	fail     bool
+	release  chan struct{}
+	entered  chan struct{}
+	once     sync.Once
+	calls    atomic.Int64
+	sentSeen atomic.Int64
+}
+
+func (c *c02StatsCC) gate() error {
+	c.calls.Add(1)
+	if !c.armed.Load() {
+		return nil
+	}
+	if c.fail {
+		return errors.New("c02: statistics backend unavailable")
+	}
+	c.once.Do(func() { close(c.entered) })
+	<-c.release
+	return nil
+}
+
+func (c *c02StatsCC) GetPortMapping(mappingID string) (*models.PortMapping, error) {
+	if err := c.gate(); err != nil {
+		return nil, err
+	}
+	return &models.PortMapping{ID: mappingID}, nil
+}
+
+func (c *c02StatsCC) UpdatePortMappingStats(mappingID string, ts *stats.TrafficStats) error {
+	if ts != nil {
+		c.sentSeen.Store(ts.BytesSent)
+	}
+	return c.gate()
+}
+
+func (c *c02StatsCC) GetClientPortMappings(clientID int64) ([]*models.PortMapping, error) {
+	return nil, c.gate()
+}
+
+// TestVerifC02StatsBackend: the tunnel carried traffic (there is an unreported traffic
+// delta), the statistics backend stalls or fails, then one end closes. Closure must not
+// depend on the backend: in a state where every goroutine of the bridge is parked - at
+// least one of them inside the stalled backend call, the others in transport/lock waits -
+// the other end's connection must already have been closed (nothing but the backend
+// returning could close it later). After the backend answers, Start must return.
+func TestVerifC02StatsBackend(t *testing.T) {
+	vk.Quiet()
+	run := vk.Start(t, "C02", "statsbackend")
+	defer run.Finish()
+	run.Rule("real Bridge with MappingID and a CloudControl double; both directions carry 1..60000 bytes to completion; then the backend is armed {stalled: calls park until released; failing: calls return an error} and the source or target client closes; transports {net.Pipe, in-memory pipe, TCP}, raw conn or StreamProcessor; distinct = (transports, stream, backend mode, closer)")
+	ln, err := net.Listen("tcp", "127.0.0.1:0")
+	if err != nil {
+		t.Fatalf("c02: listen: %v", err)
+	}
+	defer ln.Close()
+	nw := &c02Net{ln: ln}
+	r := run.Rand("gen")
+	n := run.Pick(90, 900)
+	type scase struct {
+		SrcT, TgtT string
+		Stream     bool
+		Mode       string
+		Closer     string
+		A, B       int
+		Seed       uint64
+	}
+	trs := []string{"pipe", "buf", "buf", "tcp"}
+	cases := make([]scase, n)
+	for i := range cases {
+		cases[i] = scase{SrcT: trs[r.Intn(4)], TgtT: trs[r.Intn(4)], Stream: r.Intn(2) == 0, Mode: []string{"stalled", "stalled", "failing"}[r.Intn(3)],
+			Closer: []string{"src", "tgt"}[r.Intn(2)], A: 1 + r.Intn(60000), B: 1 + r.Intn(60000), Seed: r.Uint64()}
+	}
+	run.Sample(cases[0])
+	var undecided, next atomic.Int64
+	var wg sync.WaitGroup
+	for w := 0; w < 6; w++ {
+		wg.Add(1)
+		go func() {
+			defer wg.Done()
+			for {
+				i := int(next.Add(1) - 1)
+				if i >= len(cases) || run.Violations() >= 6 {
+					return
+				}
+				c := cases[i]
+				if i%16 == 0 {
+					run.Case("statsbackend", c)
+				}
+				ctx, cancel := context.WithCancel(context.Background())
+				cliS, srvSraw, e1 := nw.pair(c.SrcT)
+				if e1 != nil {
+					cancel()
+					undecided.Add(1)
+					continue
+				}
+				cliT, srvTraw, e2 := nw.pair(c.TgtT)
+				if e2 != nil {
+					cliS.Close()
+					srvSraw.Close()
+					cancel()
+					undecided.Add(1)
+					continue
+				}
+				srvS, srvT := c02Wrap(srvSraw), c02Wrap(srvTraw)
+				var ss, ts stream.PackageStreamer
+				if c.Stream {
+					ss = stream.NewStreamProcessor(srvS, srvS, ctx)
+					ts = stream.NewStreamProcessor(srvT, srvT, ctx)
+				}
+				cc := &c02StatsCC{fail: c.Mode == "failing", release: make(chan struct{}), entered: make(chan struct{})}
+				released := false
+				release := func() {
+					if !released {
+						released = true
+						close(cc.release)
+					}
+				}
+				b := NewBridge(ctx, &BridgeConfig{TunnelID: fmt.Sprintf("c02s-%d", i), MappingID: fmt.Sprintf("map-%d", i), SourceConn: srvS, SourceStream: ss, CloudControl: cc})
+				b.SetTargetConnection(&c02TunnelConn{id: "t", conn: srvT, st: ts})
+				startDone := make(chan struct{})
+				go func() { b.Start(); close(startDone) }()
+				s2t, t2s := vk.Pattern(c.Seed, 0, c.A), vk.Pattern(c.Seed^0x1234, 0, c.B)
+				mk := func(name string, cli net.Conn, srv *c02Conn, send, expect []byte) *c02End {
+					return &c02End{name: name, cli: cli, srv: srv, send: send, expect: expect, chunks: []int{len(send)}, rbuf: 32768,
+						wDone: make(chan struct{}), rDone: make(chan struct{}), gotAll: make(chan struct{}), wStart: make(chan struct{}), badCh: make(chan struct{})}
+				}
+				S, T := mk("src", cliS, srvS, s2t, t2s), mk("tgt", cliT, srvT, t2s, s2t)
+				for _, e := range []*c02End{S, T} {
+					go e.reader()
+					go e.writer()
+				}
+				det := func(extra map[string]any) map[string]any {
+					m := map[string]any{"case": c, "srv_src_closes": srvS.closes.Load(), "srv_tgt_closes": srvT.closes.Load(), "backend_calls": cc.calls.Load(),
+						"src_got": S.got.Load(), "tgt_got": T.got.Load()}
+					for k, v := range extra {
+						m[k] = v
+					}
+					return m
+				}
+				ok := true
+				wd := time.NewTimer(c02WatchTransfer)
+				for _, ch := range []chan struct{}{S.gotAll, T.gotAll, S.wDone, T.wDone} {
+					select {
+					case <-ch:
+					case <-startDone:
+						ok = false
+					case <-S.badCh:
+						ok = false
+					case <-T.badCh:
+						ok = false
+					case <-wd.C:
+						ok = false
+					}
+					if !ok {
+						break
+					}
+				}
+				wd.Stop()
+				if !ok {
+					// the plain exchange did not complete: other monitors judge that; not this scenario
+					run.Count("statsbackend_exchange_incomplete", 1)
+					undecided.Add(1)
+				} else {
+					cc.armed.Store(true)
+					closer, other := S, T
+					if c.Closer == "tgt" {
+						closer, other = T, S
+					}
+					closer.cli.Close()
+					wd2 := time.NewTimer(c02WatchClose)
+					poll := time.NewTicker(100 * time.Millisecond)
+					finished, judged := false, false
+				wait:
+					for {
+						select {
+						case <-startDone:
+							finished = true
+							break wait
+						case <-poll.C:
+							if released {
+								if parked, sig := c02Parked(b, S, T); parked {
+									run.Violation("C02:closure|bridge-hang|script=stats-backend-"+c.Mode, det(map[string]any{"bridge_goroutines": sig}))
+									break wait
+								}
+								continue
+							}
+							select {
+							case <-cc.entered:
+							default:
+								continue
+							}
+							// a backend call is parked; is everything else parked too?
+							tags := []string{c02BridgeTag(b), c02StartTag(b), c02CloseTag(b), fmt.Sprintf("tunnel.(*c02StatsCC).gate(%p", cc)}
+							prev, stable := "", true
+							for k := 0; k < 3 && stable; k++ {
+								sig, parked, others := c02Tagged(tags)
+								if parked == 0 || len(others) > 0 || !strings.Contains(sig, "/statsgate") || (k > 0 && sig != prev) {
+									stable = false
+								}
+								prev = sig
+								if stable && k < 2 {
+									time.Sleep(60 * time.Millisecond)
+								}
+							}
+							if !stable {
+								continue
+							}
+							judged = true
+							run.Count("statsbackend_judged_while_stalled", 1)
+							if other.srv.closes.Load() == 0 {
+								run.Violation("C02:closure|peer-conn-left-open|script=stats-backend-stalled", det(map[string]any{"bridge_goroutines": prev, "closed_end": c.Closer,
+									"what": "one end closed; every goroutine of the bridge is parked, one of them inside the stalled statistics backend call, and the other end's connection has not been closed: closure propagation waits for the statistics backend"}))
+							} else {
+								run.Count("statsbackend_closure_independent_of_backend", 1)
+							}
+							release()
+						case <-wd2.C:
+							run.Count("watchdog", 1)
+							undecided.Add(1)
+							break wait
+						}
+					}
+					wd2.Stop()
+					poll.Stop()
+					_ = judged
+					if finished {
+						run.Count("closure_checks", 1)
+						if other.srv.closes.Load() == 0 {
+							run.Violation("C02:closure|peer-conn-left-open|script=stats-backend-"+c.Mode, det(nil))
+						} else {
+							wd3 := time.NewTimer(c02WatchClose)
+							select {
+							case <-other.rDone:
+								run.Count("closure_observed_by_peer", 1)
+								if c.Mode == "failing" {
+									run.Count("statsbackend_failing_ok", 1)
+								}
+							case <-wd3.C:
+								run.Count("harness_reader_stuck", 1)
+								undecided.Add(1)
+							}
+							wd3.Stop()
+						}
+					}
+				}
+				release()
+				cliS.Close()
+				cliT.Close()
+				b.Close()
+				srvS.Close()
+				srvT.Close()
+				if ss != nil {
+					ss.Close()
+					ts.Close()
+				}
+				cancel()
+				for _, ch := range []chan struct{}{S.rDone, T.rDone, S.wDone, T.wDone} {
+					<-ch
+				}
+				run.Eval(1)
+				run.Distinct(fmt.Sprintf("%s>%s|stream=%v|%s|%s", c.SrcT, c.TgtT, c.Stream, c.Mode, c.Closer))
+			}
+		}()
+	}
+	wg.Wait()
+	if undecided.Load() == 0 {
+		run.Count("all_cases_decided", 1)
+	}
+	run.Floor("all_cases_decided", 1)
+	run.Floor("statsbackend_judged_while_stalled", int64(run.Pick(30, 300)))
+	run.Floor("statsbackend_failing_ok", int64(run.Pick(10, 100)))
+	run.Floor("closure_observed_by_peer", int64(run.Pick(60, 600)))
+}
+
 // ---------------------------------------------------------------------------
 // test
 // ---------------------------------------------------------------------------
@@ -1758,6 +2269,11 @@ func c02Directed() []c02Cfg {
 	add(func(c *c02Cfg) { c.Limit = 64 * 1024; c.S2T = 100000; c.T2S = 100000; c.ChunkS = "mid"; c.ChunkT = "big" })
 	add(func(c *c02Cfg) { c.Limit = 1 << 20; c.S2T = 1<<20 + 1; c.T2S = 1500000; c.ChunkS = "big"; c.ChunkT = "big"; c.SrcT = "buf"; c.TgtT = "tcp" })
 	add(func(c *c02Cfg) { c.Limit = 1 << 30; c.S2T = 1500000; c.T2S = 1<<20 + 1; c.ChunkS = "big"; c.ChunkT = "whole"; c.SrcT = "buf"; c.TgtT = "buf" })
+	// bulk transfer larger than the socket buffers, sender closes while the receiver drains
+	add(func(c *c02Cfg) { c.Script = "bulk-close"; c.End = "src"; c.SrcT = "tcp"; c.S2T = 6 << 20; c.ChunkS = "big" })
+	add(func(c *c02Cfg) { c.Script = "bulk-close"; c.End = "tgt"; c.TgtT = "tcp"; c.S2T = 6 << 20; c.ChunkS = "big"; c.Stream = true })
+	add(func(c *c02Cfg) { c.Script = "bulk-close"; c.End = "src"; c.SrcT = "buf"; c.S2T = 5 << 20; c.ChunkS = "whole" })
+	add(func(c *c02Cfg) { c.Script = "bulk-close"; c.End = "tgt"; c.TgtT = "pipe"; c.S2T = 4<<20 + 1; c.ChunkS = "mid" })
 	// an end over real TCP whose stream layers a transformation over the socket, other end plain
 	add(func(c *c02Cfg) { c.SrcT = "tcp"; c.MaskS = true; c.S2T = 100000; c.T2S = 70000; c.ChunkS = "mid"; c.ChunkT = "small" })
 	add(func(c *c02Cfg) { c.TgtT = "tcp"; c.MaskT = true; c.SrcT = "buf"; c.S2T = 40000; c.T2S = 1<<20 + 1; c.ChunkS = "small"; c.ChunkT = "big" })
@@ -1800,7 +2316,7 @@ func TestVerifC02BytePipe(t *testing.T) {
 	vk.Quiet()
 	run := vk.Start(t, "C02", "bytepipe")
 	defer run.Finish()
-	run.Rule("a real tunnel.Bridge between two harness clients; per case: transports per end {net.Pipe, unbounded in-memory pipe, loopback TCP}, raw conn or real StreamProcessor, or (TCP ends) the raw *net.TCPConn plus a stream whose reader/writer apply a position-dependent XOR keystream over the socket, bandwidth limit {0, 500..16383 (burst < 32KiB copy buffer), 64KiB/s, 1MiB/s, 1GiB/s}, 0..1.5MiB (thorough 8MiB) per direction simultaneously (sizes of limited cases chosen so a correct transfer needs <= 1.5s, plus a few slow-but-legal cases: 500..4000 B/s with one write of 6-10x the limit, 4-8 s), seeded write chunkings (1B..256KiB / whole), server-side short reads, client read buffers 1B..64KiB, target attached before/after Start/after the source started writing, scripts {none, injected read timeouts (bare or together with data), an end finishing after a complete exchange with its last bytes delivered together with io.EOF, source re-attach on a new connection at a seeded hand-over offset with the old connection left open (then optionally bytes from the new source end, then the target or the new source end closes while the old connection is still open), client close at a seeded offset, server-side read/write failure at a seeded offset (bare or with data; the sticky read error is plain, Timeout&&!Temporary, Temporary&&!Timeout or a net.Error that is neither), Bridge.Close at a seeded offset}; distinct = (transports, stream, limit class, attach, script, size buckets) of cases that delivered at least one byte")
+	run.Rule("a real tunnel.Bridge between two harness clients; per case: transports per end {net.Pipe, unbounded in-memory pipe, loopback TCP}, raw conn or real StreamProcessor, or (TCP ends) the raw *net.TCPConn plus a stream whose reader/writer apply a position-dependent XOR keystream over the socket, bandwidth limit {0, 500..16383 (burst < 32KiB copy buffer), 64KiB/s, 1MiB/s, 1GiB/s}, 0..1.5MiB (thorough 8MiB) per direction simultaneously (sizes of limited cases chosen so a correct transfer needs <= 1.5s, plus a few slow-but-legal cases: 500..4000 B/s with one write of 6-10x the limit, 4-8 s), seeded write chunkings (1B..256KiB / whole), server-side short reads, client read buffers 1B..64KiB, target attached before/after Start/after the source started writing, scripts {none, injected read timeouts (bare or together with data), an end finishing after a complete exchange with its last bytes delivered together with io.EOF, source re-attach on a new connection at a seeded hand-over offset with the old connection left open (then optionally bytes from the new source end, then the target or the new source end closes while the old connection is still open), client close at a seeded offset, server-side read/write failure at a seeded offset (bare or with data; the sticky read error is plain, Timeout&&!Temporary, Temporary&&!Timeout or a net.Error that is neither), Bridge.Close at a seeded offset, bulk transfer (4-6 MiB, one direction) after which the sender closes while a logically slow TCP receiver still has more than 1 MiB queued towards it}; distinct = (transports, stream, limit class, attach, script, size buckets) of cases that delivered at least one byte")
 
 	ln, err := net.Listen("tcp", "127.0.0.1:0")
 	if err != nil {
@@ -1934,6 +2450,8 @@ func TestVerifC02BytePipe(t *testing.T) {
 	run.Floor("limited_chunk_gt_burst", 2)
 	run.Floor("early_close_fired", 5)
 	run.Floor("transport_fault_fired", 3)
+	run.Floor("bulk_close_complete", 4)
+	run.Floor("bulk_close_half_mib_undelivered_at_close", 3)
 	run.Floor("layered_tcp_stream_cases", int64(run.Pick(15, 150)))
 	run.Floor("layered_tcp_stream_one_end_only", int64(run.Pick(8, 80)))
 	run.Floor("layered_tcp_stream_complete", int64(run.Pick(5, 50)))
